@@ -13,18 +13,19 @@
 (***************************************************************************)
 EXTENDS Naturals, Sequences, FiniteSets, TLC
 
-CONSTANTS NClamps,      \* clamped points 1..NClamps; point NClamps+1 is unclamped, NClamps+2 follows clamp 1 (link)
+CONSTANTS NClamps,      \* clamped points 1..NClamps; point NClamps+1 is unclamped
+          NFollow,      \* points NClamps+2 .. NClamps+1+NFollow each follow clamp 1 through a link of their own
           NParams,      \* parameter values 0..NParams-1
           QMax,         \* quality values 0..QMax
           MaxProbes
 
 Clamps == 1..NClamps
 Free == NClamps + 1
-Follower == NClamps + 2
-Points == 1..(NClamps + 2)
+Followers == (NClamps + 2)..(NClamps + 1 + NFollow)
+Points == 1..(NClamps + 1 + NFollow)
 Params == 0..(NParams - 1)
 PosVec == [Clamps -> Params]                       \* positions of the clamped points = their parameters
-LinkOf(p) == p                                     \* follower position is a function of the leader's (here: equal)
+LinkOf(f, p) == (p + f) % NParams                  \* a follower's position is a function of the leader's, its own per link
 
 VARIABLES Q,        \* [PosVec -> 0..QMax] the quality function (environment, fixed per behaviour)
           Bad,      \* set of PosVec at which evaluating the quality raises (degenerate cell)
@@ -40,10 +41,11 @@ vars == <<Q, Bad, pos, saved, pc, cur, todo, nprobe, failed, qStart, mesh>>
 
 Vec(p) == [c \in Clamps |-> p[c]]
 Quality(p) == Q[Vec(p)]
-Move(p, c, v) == [p EXCEPT ![c] = v, ![Follower] = IF c = 1 THEN LinkOf(v) ELSE @]
+\* GridBase.update: the clamped point moves and EVERY link of its junction is updated and written back
+Move(p, c, v) == [x \in Points |-> IF x = c THEN v ELSE IF x \in Followers /\ c = 1 THEN LinkOf(x, v) ELSE p[x]]
 
 Init == /\ Q \in [PosVec -> 0..QMax]
-        /\ pos = [p \in Points |-> 0]
+        /\ pos = [p \in Points |-> IF p \in Followers THEN LinkOf(p, 0) ELSE 0]
         /\ Bad \in SUBSET (PosVec \ {Vec(pos)})
         /\ saved = 0 /\ pc = "idle" /\ cur = 0 /\ todo = Clamps /\ nprobe = 0 /\ failed = FALSE
         /\ qStart = Quality(pos) /\ mesh = pos
@@ -84,7 +86,7 @@ Spec == Init /\ [][Next]_vars
 \* ---- properties of the design
 NeverWorse == pc = "idle" => Quality(pos) <= qStart
 UnclampedStill == pos[Free] = 0
-FollowerLinked == pc = "idle" => pos[Follower] = LinkOf(pos[1])
+FollowerLinked == pc = "idle" => \A f \in Followers : pos[f] = LinkOf(f, pos[1])
 NotHalfApplied == pc = "idle" => Vec(pos) \notin Bad
 BackportEqual == pc = "done" => mesh = pos
 StepMonotone == [][ (pc = "probing" /\ pc' = "idle") => Quality(pos') <= Quality(Move(pos, cur, saved)) ]_vars
